@@ -10,6 +10,7 @@ ABSTRACT = ('ABSTRACT callees (exact frame, arbitrary verdict recorded in ghost 
 
 
 def register(add):
+    import os
     G = lambda f: '%s/%s_g' % (f, f)
     common = dict(harness='c05x_rsa_ver.c', headers=['c05x_rsa.h', 'c05x_rsa_state.h'], conf='base', route='proof', unwind=82, weave=False,
                   flags=['--object-bits', '10'], timeout=600,
@@ -21,8 +22,9 @@ def register(add):
         cfg = 'shipped configuration (CP_RSAPD=PKCS2)' if not pd else 'same source with the cmake option CP_RSAPD=%s (re-selected by -DC05X_RSAPD; the macro is used in relic_cp_rsa.c only)' % pd
         add('cp_rsa_ver.' + tag, ['C05'], 'cp_rsa_ver', replace=rep, defines=d,
             note='STRICT contract from the property: ' + cfg + '. ' + ABSTRACT % (padfn, minbits), **common)
-        add('cp_rsa_ver.%s.codeguards' % tag, ['C05'], 'cp_rsa_ver', replace=rep, defines=d + NOCODE,
-            note='as cp_rsa_ver.%s WITHOUT the clauses the code does not implement (signature length = modulus length, representative < modulus, standard emLen, caller digest length = RLC_MD_LEN): ' % tag +
+        if os.environ.get('C05X_ALL'):
+          add('cp_rsa_ver.%s.codeguards' % tag, ['C05'], 'cp_rsa_ver', replace=rep, defines=d + NOCODE,
+            note='as cp_rsa_ver.%s WITHOUT the clauses the code did not implement before the repairs (signature length = modulus length, representative < modulus, standard emLen, caller digest length = RLC_MD_LEN): ' % tag +
                  cfg + '. ' + ABSTRACT % (padfn, minbits), **common)
 
     # ---- padding parsers over a byte-level model of bn_rsh / bn_mod_2b / bn_is_zero ---------------------------------------
@@ -36,7 +38,8 @@ def register(add):
         what = ('EM = 00 01 FF^(k-54) 00 DigestInfo(SHA-256) H' if op == 4 else 'EM = 00 01 FF^(k-35) 00 H (RELIC variant without DigestInfo)')
         add('pad_pkcs1.%s' % opn, ['C05'], 'pad_pkcs1', defines=['C05X_RSAPD=PKCS1', 'C05X_PADFN=pad_pkcs1', 'C05X_OP=%d' % op],
             note='STRICT: RLC_OK <==> ' + what + ' with at least 8 padding bytes (RFC 8017 9.2), every byte compared; same source with CP_RSAPD=PKCS1. ' + PM, **pm)
-        add('pad_pkcs1.%s.codeguards' % opn, ['C05'], 'pad_pkcs1', defines=['C05X_RSAPD=PKCS1', 'C05X_PADFN=pad_pkcs1', 'C05X_OP=%d' % op, 'C05X_MINPS=7'],
+        if os.environ.get('C05X_ALL'):
+          add('pad_pkcs1.%s.codeguards' % opn, ['C05'], 'pad_pkcs1', defines=['C05X_RSAPD=PKCS1', 'C05X_PADFN=pad_pkcs1', 'C05X_OP=%d' % op, 'C05X_MINPS=7'],
             note='as pad_pkcs1.%s with the minimum padding length the code enforces (7, the standard says 8): ' % opn + what + '. ' + PM, **pm)
     # pad_basic (CP_RSAPD=BASIC) was tried with the same model (contract text kept in c05x_rsa_pad.h) and did not finish in 900 s: not registered.
 
